@@ -28,3 +28,10 @@ func (w *ndjson) Bytes() []byte { return w.buf.Bytes() }
 func (w *ndjson) Len() int      { return w.n }
 
 type obj = map[string]interface{}
+
+func maxI64(a, b int64) int64 {
+	if a > b {
+		return a
+	}
+	return b
+}
